@@ -22,9 +22,12 @@ from . import vtime
 from .sched import TASK_ID
 from .sfsched import SfSched
 
-VARIANTS = ["bare", "bare_default", "cache", "cache_default", "early", "soft", "cache_lock"]
-CACHING = {"bare": False, "bare_default": False, "cache": True, "cache_default": True, "early": True, "soft": True,
-           "cache_lock": True}
+VARIANTS = ["bare", "bare_default", "cache", "cache_default", "early", "soft", "cache_lock", "cache_gated", "early_gated",
+            "soft_gated"]
+CACHING = {v: not v.startswith("bare") for v in VARIANTS}
+# *_gated: the backend parks the execution right after a cache lookup that missed and right before it stores the
+# result, so the execution is in flight - and callers arrive - while the wrapped body is not (yet / any more) running
+GATED = {v: v.endswith("_gated") for v in VARIANTS}
 TTL = 1024          # seconds; no run lets more than a few ticks pass
 INNER_TTL = 512
 
@@ -82,6 +85,58 @@ def outcome_code(task: asyncio.Task) -> str:
     return "R?" + repr(r)[:40]
 
 
+_CURRENT: list = [None]          # the scheduler of the run in progress (for the gated backend)
+_GATE_CLS: list = [None]
+
+
+def _exec_label():
+    """inside an execution task (not a caller's own task): make sure it is labelled ("x", creator) and say so"""
+    sched = _CURRENT[0]
+    tid = TASK_ID.get()
+    if sched is None or tid is None:
+        return False
+    if tid[0] == "x":
+        return True
+    if sched.callers.get(tid[1]) is asyncio.current_task():
+        return False
+    TASK_ID.set(("x", tid[1]))
+    return True
+
+
+def gate_backend():
+    """`gmem://`: Memory whose get parks after a miss and whose set parks before storing (executions only)"""
+    if _GATE_CLS[0] is None:
+        import cashews
+        from cashews.backends.memory import Memory
+
+        class GateMemory(Memory):
+            async def get(self, key, default=None):
+                r = await super().get(key, default=default)
+                if r is default and _exec_label():
+                    await _CURRENT[0].point(("after-get-miss", key))
+                return r
+
+            async def set(self, key, value, *args, **kwargs):
+                inside = _exec_label()
+                if inside:
+                    await _CURRENT[0].point(("before-set", key))
+                r = await super().set(key, value, *args, **kwargs)
+                if inside and _CURRENT[0].log is not None:
+                    _CURRENT[0].log(("stored", TASK_ID.get()[1]))
+                return r
+
+        cashews.register_backend("gmem", GateMemory)
+        _GATE_CLS[0] = GateMemory
+    return "gmem://?check_interval=0"
+
+
+def gates_of(variant: str, n: int, kind: str) -> int:
+    """suspension points of an execution that runs the body (n scripted ones)"""
+    if not GATED[variant]:
+        return n
+    return 1 + n + (1 if kind == "r" else 0)
+
+
 def build(variant: str, body):
     """decorate `body` (an `async def f(k)`) the way the variant says; returns (callable, closer)"""
     import cashews
@@ -95,14 +150,14 @@ def build(variant: str, body):
     if variant == "bare_default":
         return cashews.thunder_protection()(f), None
     cache = Cache()
-    cache.setup("mem://")
-    if variant == "cache":
+    cache.setup(gate_backend() if GATED[variant] else "mem://")
+    if variant in ("cache", "cache_gated"):
         g = cache.cache(ttl=TTL, key="sf:{k}")(f)
     elif variant == "cache_default":
         g = cache(ttl=TTL)(f)
-    elif variant == "early":
+    elif variant in ("early", "early_gated"):
         g = cache.early(ttl=TTL, early_ttl=INNER_TTL, key="sf:{k}")(f)
-    elif variant == "soft":
+    elif variant in ("soft", "soft_gated"):
         g = cache.soft(ttl=TTL, soft_ttl=INNER_TTL, key="sf:{k}")(f)
     elif variant == "cache_lock":
         g = cache.cache(ttl=TTL, key="sf:{k}", lock=True)(f)
@@ -121,6 +176,7 @@ def execute(case: dict, cancel_budget: int = 0) -> Run:
     schedule = [tuple(e) if isinstance(e, list) else e for e in case.get("schedule", [])]
     sched = SfSched(schedule, cancel_budget=cancel_budget)
     sched.log = run.events.append
+    _CURRENT[0] = sched
 
     async def body(k):
         cid, n, kind, val = SCRIPT.get()
@@ -187,6 +243,7 @@ def execute(case: dict, cancel_budget: int = 0) -> Run:
         # cashews memoises key templates per decorated function (lru_cache in cashews/key.py), which keeps this run's
         # closures - and through them the scheduler - alive; drop the tasks so that asyncio.all_tasks() (walked by
         # vtime.run) does not grow with the number of runs
+        _CURRENT[0] = None
         sched.callers.clear()
         sched.tasks.clear()
         sched.parked.clear()
